@@ -466,7 +466,11 @@ def plant_corners(spec, rng):
     # a storage that no server uses (yet)
     if rng.random() < 0.5:
         st0_ = next(iter(out["storages"]))
-        out["storages"][f"st{len(out['storages'])}_free"] = dict(copy.deepcopy(out["storages"][st0_]), fixed_nb_of_instances=None)
+        nm_ = f"st{len(out['storages'])}_free"
+        out["storages"][nm_] = dict(copy.deepcopy(out["storages"][st0_]), fixed_nb_of_instances=None)
+        for prm, k_ in (("carbon_footprint_fabrication_per_storage_capacity", 3), ("power_per_storage_capacity", 2)):
+            q_ = out["storages"][nm_][prm]
+            out["storages"][nm_][prm] = {"m": q_["m"] * k_ + 1, "u": q_["u"]}      # another model of storage
     # a job on a server (and storage) that the system does not use yet, and a step without jobs to receive it
     if rng.random() < 0.5:
         sv0 = next(iter(out["servers"]))
